@@ -651,8 +651,14 @@ theorem hop_forward_no_loss (n : NodeCfg) (best : Nat) (hop : NextHop) (h : Htlc
 /-- **forceclose_selection_is_never_sent.** For EVERY `OutboundHTLCState` and every content of `blocked_monitor_updates`,
     `force_shutdown` hands an HTLC back for immediate backwards failure exactly when it never left the node: it sits in the
     holding cell, or it is `LocalAnnounced` and the one commitment that lists it is still held. -/
-theorem forceclose_selection_is_never_sent (s : FwdClose.St) : FwdClose.dropDecision s = FwdClose.neverSent s :=
-  FwdClose.dropDecision_eq_neverSent s
+theorem forceclose_selection_is_never_sent (s : FwdClose.St) : FwdClose.dropDecision s = FwdClose.neverSent s := by
+  unfold FwdClose.dropDecision FwdClose.neverSent
+  cases hp : s.phase with
+  | notYet => rfl
+  | holdingCell => rfl
+  | gone => rfl
+  | pending st =>
+    cases st <;> simp [FcGen.forceShutdownDropsPending, FcGen.forceShutdownConsiders] <;> cases s.held <;> simp
 
 /-- **forceclose_considers_no_signed_view.** Both commitment views, all states: a state `force_shutdown` considers for
     immediate fail-back is in no commitment the counterparty has signed for us (`included_in_commitment(false)`, our holder
@@ -673,7 +679,7 @@ theorem forceclose_failback_only_never_signed (ops : List FwdClose.Op) :
     let s := FwdClose.run FwdClose.init ops
     s.dropped = true → FwdClose.downstreamCanClaim s = false ∧ s.cpLatest = false ∧ s.cpPrev ≠ some true ∧ s.holder = false := by
   intro s h
-  have k := (FwdClose.inv_reachable ops).key h
+  have k := (FwdClose.inv_reachable forceclose_selection_is_never_sent ops).key h
   refine ⟨k, ?_⟩
   simp only [FwdClose.downstreamCanClaim, Bool.or_eq_false_iff, beq_eq_false_iff_ne, ne_eq] at k
   exact ⟨k.1.1, k.1.2, k.2⟩
@@ -685,9 +691,9 @@ theorem forceclose_keeps_committed (ops : List FwdClose.Op) :
     let s := FwdClose.run FwdClose.init ops
     s.closed = false → FwdClose.downstreamCanClaim s = true → (FwdClose.step s .forceClose).dropped = false := by
   intro s hc hd
-  have I := FwdClose.inv_reachable ops
+  have I := FwdClose.inv_reachable forceclose_selection_is_never_sent ops
   have e : (FwdClose.step s .forceClose).dropped = FwdClose.dropDecision s := by simp [FwdClose.step, hc]
-  rw [e, FwdClose.dropDecision_eq_neverSent]
+  rw [e, forceclose_selection_is_never_sent]
   cases hn : FwdClose.neverSent s
   · rfl
   · have := FwdClose.neverSent_cannot_claim I hn
@@ -698,7 +704,7 @@ theorem forceclose_keeps_committed (ops : List FwdClose.Op) :
 theorem forceclose_fails_back_what_never_left (s : FwdClose.St) (hc : s.closed = false) (hn : FwdClose.neverSent s = true) :
     (FwdClose.step s .forceClose).dropped = true := by
   have e : (FwdClose.step s .forceClose).dropped = FwdClose.dropDecision s := by simp [FwdClose.step, hc]
-  rw [e, FwdClose.dropDecision_eq_neverSent, hn]
+  rw [e, forceclose_selection_is_never_sent, hn]
 
 /-- **forceclose_observation_consistent.** What the harness reads off the real nodes at the instant of the close (the
     reported HTLC state, whether its `update_add_htlc` was ever released, whether C's latest commitment / B's broadcast
@@ -709,7 +715,7 @@ theorem forceclose_observation_consistent (ops : List FwdClose.Op) (cHas bHas : 
     (s.phase = .holdingCell → FwdClose.Seen.consistent .holdingCell (!FwdClose.neverSent s) cHas bHas = true) ∧
     (s.phase = .pending .localAnnounced → FwdClose.Seen.consistent .awaitingRemoteRevokeToAdd (!FwdClose.neverSent s) cHas bHas = true) := by
   intro s hcH hbH
-  have I := FwdClose.inv_reachable ops
+  have I := FwdClose.inv_reachable forceclose_selection_is_never_sent ops
   constructor
   · intro hp
     obtain ⟨u1, u2, u3, -⟩ := I.unsent (Or.inr hp)
